@@ -214,7 +214,7 @@ package wtxmgr
 //@   property C10
 //@   requires mi_wf: INV_MI(ns)
 //@ func (*Store).rollback(s, ns, height) (err)
-//@   property C10 C01 C02
+//@   property C01 C02
 // (the byte-memory frame of the template never discharged for rollback — eight
 //  loops that append to Go slices — and its time-outs starve the obligations
 //  that matter; it is not claimed for this function)
